@@ -112,14 +112,34 @@ def details(mods):
             return ("method" if owner_is_class else "function"), raw
         return "variable", raw
 
+    def unwrap(o):
+        """follow __func__ / fget down to the object the descriptors wrap (stacked descriptors)"""
+        for _ in range(8):
+            if isinstance(o, (classmethod, staticmethod)):
+                o = o.__func__
+            elif isinstance(o, property):
+                o = o.fget
+            else:
+                break
+        return o
+
+    def names_of(xs):
+        return sorted({type(x).__name__ for x in xs})
+
     def walk(scope, ns, owner_is_class, modname, qualprefix):
         out = res.setdefault(scope, {})
         for k, raw in public(ns):
             kind, target = kind_of(raw, owner_is_class)
             if kind == "variable":
                 out[k] = {"kind": "variable", "type": type(raw).__name__,
-                          "elem": sorted({type(x).__name__ for x in raw}) if isinstance(raw, (list, tuple, set, frozenset)) else None}
+                          "elem": names_of(raw) if isinstance(raw, (list, tuple, set, frozenset)) else None}
+                if isinstance(raw, dict):
+                    out[k]["keys"] = names_of(raw.keys())
+                    out[k]["vals"] = names_of(raw.values())
                 continue
+            stacked = isinstance(target, (classmethod, staticmethod, property))
+            if stacked:
+                target = unwrap(target)
             if isinstance(target, (types.FunctionType, type)):
                 defined_here = getattr(target, "__module__", None) == modname and \
                     getattr(target, "__qualname__", "") == qualprefix + k
@@ -130,7 +150,8 @@ def details(mods):
                 continue
             doc = target.__doc__
             out[k] = {"kind": kind, "doc": inspect.cleandoc(doc) if isinstance(doc, str) else None,
-                      "coroutine": inspect.iscoroutinefunction(target)}
+                      "coroutine": inspect.iscoroutinefunction(target), "raw": type(raw).__name__,
+                      "stacked": stacked}
             if isinstance(raw, type):
                 walk(scope + "." + k, vars(raw), True, modname, qualprefix + k + ".")
     for q, m in mods.items():
